@@ -510,13 +510,17 @@ Proof.
 Qed.
 
 (* ---------- the pre-fix recording (one memo for all run-time draws) loses shared dependencies ---------- *)
-Definition sh_dag : dag := [NPrim TFloat; NDet [0%nat]; NDet [0%nat]].
+Definition sh_dag : dag := [NPrim TFloat; NDet [0%nat] [0%nat]; NDet [0%nat] [0%nat]].
 Definition sh_pv (_:nat) : val := VFix [0; 0; 0; 0; 0; 0; 240; 63].
 Lemma sh_dag_wf : wf_dag sh_dag.
 Proof.
-  intros i n H d Hd. unfold sh_dag in H.
-  do 3 (destruct i as [|i]; [cbn in H; inversion H; subst; cbn in Hd; intuition lia|]).
-  destruct i; discriminate.
+  split.
+  - intros i n H d Hd. unfold sh_dag in H.
+    do 3 (destruct i as [|i]; [cbn in H; inversion H; subst; cbn in Hd; intuition lia|]).
+    destruct i; discriminate.
+  - intros i es ds H. unfold sh_dag in H.
+    do 3 (destruct i as [|i]; [cbn in H; inversion H; subst; reflexivity|]).
+    destruct i; discriminate.
 Qed.
 
 Theorem shared_memo_refuted : exists g pv r1 r2 b,
